@@ -154,7 +154,8 @@ def _init_checks(ctx, N, cls, pkg, axis, S, name, pcov):
         nsel = ctx.attr(st, o, "n_selected_")
         want_n = 2 if vname == "list2" else 1
         ctx.ob("R-INIT", f"{name}.{pkg}.n_selected_ after initialisation[{vname}]", nsel is not None and nsel.has_const and nsel.const == want_n, f"n_selected_ = {nsel!r}, expected {want_n}", site, cfg)
-        ups = [e for e in I.events[mark:] if e["kind"] == "mutate" and e.get("short", "").endswith("_update_hausdorff") and e.get("how") == "out="]
+        # (an in-place minimum issued by the update itself or by a helper it calls)
+        ups = [e for e in I.events[mark:] if e["kind"] == "mutate" and e.get("how") == "out=" and any(s_.endswith("_update_hausdorff") for s_ in e.get("stack", ()))]
         ctx.ob("R-INIT", f"{name}.{pkg}.every initial index goes through the distance update[{vname}]", len(ups) == want_n, f"{len(ups)} distance updates for {want_n} initial indices", site, cfg)
         # the candidate pushed through the k-th initial distance update is the k-th stored index
         pushed = []
